@@ -1820,20 +1820,28 @@ class slate_BradleyTerry(BallotGenerator):
             for j1 in np.random.choice(len(seed_ballot_type) - 1, size=num_ballots)
         ]
 
-        odds = (1 - cohesion) / cohesion
         # generate MCMC sample
         for i in range(num_ballots):
             # choose adjacent pair to propose a swap
             j1, j2 = swap_indices[i]
 
+            # Metropolis acceptance: min(1, pi(proposed) / pi(current))
             # if swap reduces number of voters bloc above opposing bloc
             if (
                 current_ranking[j1] != current_ranking[j2]
                 and current_ranking[j1] == bloc
             ):
-                acceptance_prob = odds
+                acceptance_prob = (
+                    1.0 if cohesion == 0 else min(1.0, (1 - cohesion) / cohesion)
+                )
 
-            # if swap increases number of voters bloc above opposing or swaps two of same bloc
+            # if swap increases number of voters bloc above opposing
+            elif current_ranking[j1] != current_ranking[j2]:
+                acceptance_prob = (
+                    1.0 if cohesion == 1 else min(1.0, cohesion / (1 - cohesion))
+                )
+
+            # swaps two of same bloc
             else:
                 acceptance_prob = 1
 
